@@ -23,6 +23,7 @@ import (
 
 	libio "github.com/fatedier/golib/io"
 
+	"github.com/fatedier/frp/pkg/msg"
 	netpkg "github.com/fatedier/frp/pkg/util/net"
 	"github.com/fatedier/frp/pkg/util/util"
 )
@@ -90,7 +91,15 @@ func (vm *Manager) NewConn(name string, conn net.Conn, timestamp int64, signKey 
 		if useCompression {
 			rwc = libio.WithCompression(rwc)
 		}
-		err = l.l.PutConn(netpkg.WrapReadWriteCloserToConn(rwc, conn))
+		// Answer the visitor before the proxy can see the connection: once it is handed over, data from
+		// the proxy's side may be written to it at any moment and must not overtake the response.
+		if err = msg.WriteMsg(conn, &msg.NewVisitorConnResp{ProxyName: name, Error: ""}); err != nil {
+			return
+		}
+		if putErr := l.l.PutConn(netpkg.WrapReadWriteCloserToConn(rwc, conn)); putErr != nil {
+			// The success response is out already, nothing else may be written to this connection.
+			conn.Close()
+		}
 	} else {
 		err = fmt.Errorf("custom listener for [%s] doesn't exist", name)
 		return
